@@ -737,7 +737,7 @@ def mapping_views(ctx, r, pool, lines, expect, meta):
 
 def run(ctx):
     r = ctx.rng
-    n = ctx.scale(60, 1500)
+    n = ctx.scale(60, 900)
     ctx.rule = ('rounds of a pool of ~18 objects derived from one random polynomial (class mix BQM/QM/objective view/constraint view/'
                 'CQM/number/other object, permuted orders, float64/float32/object dtype, single-field perturbations, same shape with '
                 'disjoint labels); every ordered pair x {is_equal, is_almost_equal(places), ==, !=}, numbers on either side of == / !=, and '
